@@ -9,10 +9,10 @@
 /* assumed: reallocation hands out a fresh block of the requested size and releases the old one (contents not
  * modelled: CBMC's copying realloc model makes this 10-line function take minutes) */
 void *__ckd_realloc__(void *ptr, size_t new_size, const char *file, int line)
-__CPROVER_requires(new_size > 0)
-__CPROVER_assigns()
+__CPROVER_requires(new_size > 0 && new_size % 40 == 0)
+__CPROVER_assigns(verif_room)
 __CPROVER_frees(ptr)
-__CPROVER_ensures(__CPROVER_is_fresh(__CPROVER_return_value, new_size))
+__CPROVER_ensures(__CPROVER_is_fresh(__CPROVER_return_value, new_size) && verif_room == (int)(new_size / 40))
 ;
 void *__ckd_calloc__(size_t n, size_t sz, const char *file, int line) { (void)file; (void)line; return calloc(n, sz); }
 void *__ckd_malloc__(size_t sz, const char *file, int line) { (void)file; (void)line; return malloc(sz); }
@@ -25,11 +25,13 @@ void ckd_free(void *ptr) { free(ptr); }
 static void *vector_grow_one(void *ptr, uint16 *n_alloc, uint16 *n, size_t item_size)
 __CPROVER_requires(__CPROVER_is_fresh(n_alloc, sizeof(*n_alloc)) && __CPROVER_is_fresh(n, sizeof(*n)) && *n <= *n_alloc && item_size == 40)
 __CPROVER_requires(ptr == NULL ? *n_alloc == 0 : (__CPROVER_is_fresh(ptr, 40 * 8) && *n_alloc == 8))
-__CPROVER_assigns(*n, *n_alloc)
+__CPROVER_assigns(*n, *n_alloc, verif_room)
 __CPROVER_frees(ptr)
 __CPROVER_ensures(IMP(__CPROVER_return_value == NULL, *n == __CPROVER_old(*n) && *n_alloc == __CPROVER_old(*n_alloc)))
-__CPROVER_ensures(IMP(__CPROVER_return_value != NULL, *n == __CPROVER_old(*n) + 1 && *n <= *n_alloc && *n_alloc >= __CPROVER_old(*n_alloc)
-                      && __CPROVER_OBJECT_SIZE(__CPROVER_return_value) >= (size_t)*n * 40))
+__CPROVER_ensures(IMP(__CPROVER_return_value != NULL, *n == __CPROVER_old(*n) + 1 && *n <= *n_alloc && *n_alloc >= __CPROVER_old(*n_alloc)))
+/* when the block is (re)allocated the new capacity is count + VECTOR_GROW and the block requested holds it (the size is an
+ * obligation at the allocator call: ghost verif_room receives the number of entries requested) */
+__CPROVER_ensures(IMP(__CPROVER_return_value != NULL && *n_alloc != __CPROVER_old(*n_alloc), *n_alloc == *n + 10 && verif_room == *n_alloc))
 ;
 void h_vector_grow_one(void) { void *p; uint16 *a, *n; vector_grow_one(p, a, n, 40); VERIF_CANARY(); }  /* item size constant: symex folds the multiplications */
 #endif
